@@ -22,8 +22,9 @@ P = ["C05", "C02", "C08", "C09", "C07", "C10"]
 class Elem:
     """an opaque element: compared and hashed by identity"""
 
-    def __init__(self, name):
+    def __init__(self, name, isolated=False):
         self.name = name
+        self._is_isolated = isolated          # (every real node / link carries the flag)
 
 
 class Fn(NativeModel):
@@ -41,10 +42,12 @@ def _drive_updater(upd, regs, m, wn, obj, attr):
     upd.update(m, wn, obj, attr)
 
 
-def _updater_case(which):
+def _updater_case(which, isolated=False):
+    """`isolated`: the elements are currently cut off from every source - a change made meanwhile must reach the model all the same (the rows are
+    what the element is rebuilt from when it is connected again only if they were kept current)"""
     def build(cx):
         log = []
-        A, B = Elem("A"), Elem("B")
+        A, B = Elem("A", isolated), Elem("B", isolated)
         f1, f2, f3, f4 = Fn("f1", log), Fn("f2", log), Fn("f3", log), Fn("f4", log)
         regs = [(A, "status", f1), (B, "status", f3), (A, "status", f2), (A, "setting", f4), (A, "status", f1)]      # f1 registered twice for the same pair
         upd = cx.obj(ModelUpdater, update_functions={})
@@ -59,7 +62,7 @@ def _updater_case(which):
             return [("exactly_the_functions_registered_for_that_element_and_attribute_run_once_each_in_registration_order", [e[0] for e in log] == want),
                     ("each_is_told_the_model_the_network_the_updater_the_element_and_the_attribute", args_ok)]
         cx.ensure(post)
-    return Case(which, build, crosscheck=False)
+    return Case(which + (",elements_currently_isolated" if isolated else ""), build, crosscheck=False)
 
 
 class _Def(Definition):
@@ -123,7 +126,7 @@ def _controls_case(n):
 
 
 CONTRACTS = [
-    Contract("wntr.sim.models.utils:ModelUpdater.add/update", P, [_updater_case(w) for w in ("registered_pair", "other_attribute", "other_element", "unregistered")],
+    Contract("wntr.sim.models.utils:ModelUpdater.add/update", P, [_updater_case(w, iso) for iso in (False, True) for w in ("registered_pair", "other_attribute", "other_element", "unregistered")],
              interpret_always=(_drive_updater,), note="five registrations on two elements and two attributes (one duplicate); elements and functions are opaque objects"),
     Contract("wntr.sim.models.utils:Definition.update", P, [_definition_case()]),
     Contract("wntr.sim.hydraulics:update_model_for_controls", P, [_controls_case(0), _controls_case(1), _controls_case(3)],
